@@ -68,6 +68,7 @@ RESERVED_WORDS = (
     | {"self", "true", "false", "datetime"}
     # Names which the generated model classes use themselves (locals of from_dict/to_dict, methods, imports)
     | {"d", "cls", "field_dict", "additional_properties", "additional_keys", "from_dict", "to_dict", "cast", "isoparse"}
+    | {"src_dict", "prop_name", "prop_dict"}
 ) - {
     "id",
 }
